@@ -190,14 +190,18 @@ structure Config where
   reventsCleared : Bool
   /-- `invoke_watch` reads `watch->type` and `watch->t` before it calls the callback. -/
   invokeTypeSaved : Bool
+  /-- `tickit_evloop_invoke_sigwatches` walks a snapshot of `t->signals` and skips entries no longer linked. -/
+  sigSnapshot : Bool
+  /-- `on_sigchld` walks a snapshot of `t->processes` and skips entries no longer linked. -/
+  procSnapshot : Bool
 deriving DecidableEq, Repr, Inhabited
 
 def Config.shipped : Config :=
   { ioFlagMask := 2, timersPop := false, errnoSaved := false, pendingInit := false, reventsCleared := false,
-    invokeTypeSaved := false }
+    invokeTypeSaved := false, sigSnapshot := false, procSnapshot := false }
 def Config.repaired : Config :=
   { ioFlagMask := 6, timersPop := true, errnoSaved := true, pendingInit := true, reventsCleared := true,
-    invokeTypeSaved := true }
+    invokeTypeSaved := true, sigSnapshot := true, procSnapshot := true }
 
 /-- One entry of `pollfds[]`/`pollwatches[]`.  `revents = none`: never written (uninitialised). -/
 structure PollSlot where
@@ -626,6 +630,23 @@ def onSigchld (fuel : Nat) (st : St) (this : Option Nat) : St :=
       if !st.live a then st.fail .procLoopThis
       else onSigchld fuel (procStep st a) (succOf a st.procs)
 
+/-- The repaired `on_sigchld`: a snapshot of `t->processes` is walked; an entry is used only if
+    `watch_is_linked` still finds it (pointer comparisons; the walk reads `->next` of the nodes before it). -/
+def procSnapLoop (st : St) : List Nat → St
+  | [] => st
+  | a :: rest =>
+    if !st.isOk then st
+    else if !st.allLive (st.procs.takeWhile (· ≠ a)) then st.fail .procLoopThis
+    else if !st.procs.contains a then procSnapLoop st rest
+    else if !st.live a then st.fail .procLoopThis
+    else procSnapLoop (procStep st a) rest
+
+/-- `on_sigchld` in the variant the source has. -/
+def onSigchldAny (fuel : Nat) (st : St) : St :=
+  if st.cfg.procSnapshot then
+    (if !st.allLive st.procs then st.fail .procLoopThis else procSnapLoop st st.procs)
+  else onSigchld fuel st st.procs.head?
+
 /-- `process_notify` (lines 655–662), the callback of the internal `later` of a pre-exited child. -/
 def processNotify (st : St) (later : Nat) : St :=
   if !st.live (st.getW later).puser then st.fail .invokeWatchType
@@ -747,7 +768,7 @@ def invokeTimers (fuel : Nat) (st : St) : St :=
 def sigCb (fuel : Nat) (st : St) (a : Nat) (signum : Int) : St :=
   if (st.getW a).signum = signum then
     if (st.getW a).slot ≥ 0 then fireUser st (st.getW a).slot EV_FIRE .none
-    else if (st.getW a).slot = -3 then onSigchld fuel st st.procs.head?
+    else if (st.getW a).slot = -3 then onSigchldAny fuel st
     else if (st.getW a).slot = -5 then { st with stillRunning := false }    -- on_sigint: tickit_stop
     else st     -- on_sigwinch: the headless terminal has no output descriptor
   else st
@@ -772,12 +793,30 @@ def sigwatchLoopT (fuel : Nat) (st : St) (signum : Int) (this : Option Nat) : St
 def sigwatchLoop (fuel : Nat) (st : St) (signum : Int) (this : Option Nat) : St :=
   (sigwatchLoopT fuel st signum this).1
 
+/-- The repaired `tickit_evloop_invoke_sigwatches`: a snapshot of `t->signals` is walked; an entry is used
+    only if `watch_is_linked` still finds it.  Returns the state and the watches visited, in order. -/
+def sigSnapLoopT (fuel : Nat) (st : St) (signum : Int) : List Nat → St × List Nat
+  | [] => (st, [])
+  | a :: rest =>
+    if !st.isOk then (st, [])
+    else if !st.allLive (st.signals.takeWhile (· ≠ a)) then (st.fail .sigLoopThis, [])
+    else if !st.signals.contains a then sigSnapLoopT fuel st signum rest
+    else if !st.live a then (st.fail .sigLoopThis, [])
+    else ((sigSnapLoopT fuel (sigCb fuel st a signum) signum rest).1,
+          a :: (sigSnapLoopT fuel (sigCb fuel st a signum) signum rest).2)
+
+/-- `tickit_evloop_invoke_sigwatches` in the variant the source has. -/
+def sigDispatch (fuel : Nat) (st : St) (signum : Int) : St :=
+  if st.cfg.sigSnapshot then
+    (if !st.allLive st.signals then st.fail .sigLoopThis else (sigSnapLoopT fuel st signum st.signals).1)
+  else sigwatchLoop fuel st signum st.signals.head?
+
 /-- The `for(signum = 1; signum < NSIG; signum++)` loop of `dispatch_signals`. -/
 def dispatchLoop (fuel : Nat) (st : St) (pending : List Int) : List Int → St
   | [] => st
   | s :: rest =>
     dispatchLoop fuel
-      (if st.isOk && pending.contains s && st.watched.contains s then sigwatchLoop fuel st s st.signals.head? else st)
+      (if st.isOk && pending.contains s && st.watched.contains s then sigDispatch fuel st s else st)
       pending rest
 
 def signalRange : List Int := (List.range NSIG).tail.map Int.ofNat
